@@ -46,6 +46,16 @@ func (ex *Exec) envFor(fr *Frame, st *State) *Env {
 				}
 			}
 		}
+		// captured variables of a function literal: the name denotes the current content of the captured variable
+		for _, fv := range fr.fn.FreeVars {
+			if r, ok := fr.regs[fv]; ok && r.P != nil && r.P.Cell != nil && len(r.P.Path) == 0 {
+				if c, live := st.cells[r.P.Cell]; live {
+					if _, shadow := env.vars[fv.Name()]; !shadow {
+						env.vars[fv.Name()] = TV{c, ex.u.SortOf(r.P.Cell.typ)}
+					}
+				}
+			}
+		}
 		// named locals that live in cells
 		for val, r := range fr.regs {
 			if a, ok := val.(*ssa.Alloc); ok && a.Comment != "" && r.P != nil && r.P.Cell != nil {
@@ -287,6 +297,15 @@ func (ex *Exec) call(fr *Frame, st *State, instr ssa.Value, com *ssa.CallCommon,
 	c := ex.cs.Lookup(name)
 	inl := (c != nil && c.Inline) || inlineLeaves[name] || (fn.Parent() != nil) || fn.Synthetic != ""
 	if inl && len(fn.Blocks) > 0 {
+		ex.inlined[name] = true
+		ex.callers = append(ex.callers, fr)
+		outs := ex.run(fn, args, fv.Fn.Bindings, st, false, nil)
+		ex.callers = ex.callers[:len(ex.callers)-1]
+		return outs
+	}
+	if fn.Pkg != nil && ex.prog.isRepoPkg(fn.Pkg.Pkg.Path()) && c == nil && autoInlinable(fn) {
+		// a small loop-free helper without a contract of its own is part of its caller: executed from its real body
+		// (keeps harmless refactorings - extracting a helper - from losing the proof; listed under inlined functions)
 		ex.inlined[name] = true
 		ex.callers = append(ex.callers, fr)
 		outs := ex.run(fn, args, fv.Fn.Bindings, st, false, nil)
@@ -610,4 +629,16 @@ func (ex *Exec) copyModel(st *State, com *ssa.CallCommon, args []Val) []Outcome 
 	st.assume(fmt.Sprintf("(forall ((i!c Int)) (! (= (select %s i!c) (ite (and (<= 0 i!c) (< i!c %s)) (select %s i!c) (select %s i!c))) :pattern ((select %s i!c))))", r, n, sArr, old, r))
 	st.cells[dst.Bk.Cell] = ex.writePath(st.cells[dst.Bk.Cell], dst.Bk.Cell.typ, dst.Bk.Path, r)
 	return []Outcome{{st: st, results: []Val{{T: n}}}}
+}
+
+// autoInlinable: loop-free repository functions of at most 80 SSA instructions.
+func autoInlinable(fn *ssa.Function) bool {
+	if len(fn.Blocks) == 0 || len(findLoops(fn).headers) > 0 {
+		return false
+	}
+	n := 0
+	for _, b := range fn.Blocks {
+		n += len(b.Instrs)
+	}
+	return n <= 80
 }
